@@ -209,6 +209,156 @@ impl<'a> ListGen<'a> {
         Fun { src: format!("{name} = #{param} {{ {body} }}"), name, kind, total }
     }
 
+    // ---------------------------------------------------------------------------------------------
+    // second family: NON-recursive aliases — a union of records dispatched on, directly and as a field,
+    // through an alias of the parameter tuple, through a type built with a type SPREAD
+    // ---------------------------------------------------------------------------------------------
+
+    fn shape_lit(&mut self) -> String {
+        match self.r.below(3) {
+            0 => format!("Circle[r: {}]", self.k()),
+            1 => format!("Rect[w: {}, h: {}]", self.k(), self.k()),
+            _ => "Dot".to_string(),
+        }
+    }
+
+    /// patterns on a value of type `'s`, with the integer variables each binds
+    fn shape_pats(&mut self) -> Vec<(String, Vec<&'static str>)> {
+        let k = self.k();
+        let k2 = self.k();
+        vec![
+            ("Circle[r: x]".to_string(), vec!["x"]),
+            ("Rect[w: x, h: y]".to_string(), vec!["x", "y"]),
+            ("Dot".to_string(), vec![]),
+            ("Circle(r)".to_string(), vec!["r"]),
+            ("Rect*".to_string(), vec!["w", "h"]),
+            ("(r)".to_string(), vec!["r"]),
+            ("(w, h)".to_string(), vec!["w", "h"]),
+            ("(h: y)".to_string(), vec!["y"]),
+            (format!("Circle[r: {k}]"), vec![]),
+            (format!("Rect[w: x, h: {k2}]"), vec!["x"]),
+            ("Rect[w: x, h: x]".to_string(), vec!["x"]),
+            ("Circle[_]".to_string(), vec![]),
+            ("Rect(w: x)".to_string(), vec!["x"]),
+        ]
+    }
+
+    /// `'s` → integer
+    fn fun_shape(&mut self) -> Fun {
+        let name = self.fresh("s");
+        let mut pats = self.shape_pats();
+        self.r.shuffle(&mut pats);
+        let n = 2 + self.r.usize(3);
+        let mut brs = vec![];
+        for (p, vars) in pats.into_iter().take(n) {
+            let e = self.int_expr(&vars);
+            brs.push(format!("| ={p} => {e}"));
+        }
+        if self.r.chance(1, 2) {
+            brs.push(format!("| {}", self.k()));
+        }
+        Fun { src: format!("{name} = #'s {{ {} }}", brs.join(" ")), name, kind: "shape", total: false }
+    }
+
+    /// `['s, 'int]` (written out, or through the alias `'ps`) → integer
+    fn fun_shape_field(&mut self) -> Fun {
+        let name = self.fresh("p");
+        let mut pats = self.shape_pats();
+        self.r.shuffle(&mut pats);
+        let n = 2 + self.r.usize(3);
+        let mut brs = vec![];
+        // which variants of field 0 the branches so far have used up (a literal anywhere keeps it alive)
+        let (mut circle, mut rect, mut dot) = (false, false, false);
+        for (p, vars) in pats.into_iter().take(n) {
+            let mut vs = vars.clone();
+            let second = match self.r.below(4) {
+                0 => self.k().to_string(),
+                1 => "_".to_string(),
+                _ => {
+                    vs.push("a");
+                    "a".to_string()
+                }
+            };
+            let e = self.int_expr(&vs);
+            brs.push(format!("| =[{p}, {second}] => {e}"));
+            let open = second.chars().all(|c| !c.is_ascii_digit());
+            if open {
+                match p.as_str() {
+                    "Circle[r: x]" | "Circle(r)" | "(r)" | "Circle[_]" => circle = true,
+                    "Rect[w: x, h: y]" | "Rect*" | "(w, h)" | "(h: y)" | "Rect(w: x)" => rect = true,
+                    "Dot" => dot = true,
+                    _ => {}
+                }
+            }
+            // open finding 12 (a used-up field is an InternalError): nothing after the field is used up
+            if self.steer && circle && rect && dot {
+                break;
+            }
+        }
+        if self.r.chance(1, 2) && !(self.steer && circle && rect && dot) {
+            brs.push("| =[_, a] => a".to_string());
+        }
+        let param = if self.r.chance(1, 2) { "'ps" } else { "['s, 'int]" };
+        Fun { src: format!("{name} = #{param} {{ {} }}", brs.join(" ")), name, kind: "shapefield", total: false }
+    }
+
+    /// `'ext = E[...'b, s: 's]` → integer
+    fn fun_ext(&mut self) -> Fun {
+        let name = self.fresh("e");
+        let mut pool: Vec<(String, Vec<&'static str>)> = vec![
+            ("E[id: i, s: Circle[r: x]]".to_string(), vec!["i", "x"]),
+            ("E[id: i, s: _]".to_string(), vec!["i"]),
+            ("E(s: Rect[w: x, h: _])".to_string(), vec!["x"]),
+            ("E(id)".to_string(), vec!["id"]),
+            ("E(s: Dot)".to_string(), vec![]),
+            ("(id: i, s: Circle[r: x])".to_string(), vec!["i", "x"]),
+            (format!("E[id: {}, s: _]", self.k()), vec![]),
+        ];
+        self.r.shuffle(&mut pool);
+        let n = 2 + self.r.usize(2);
+        let mut brs = vec![];
+        for (p, vars) in pool.into_iter().take(n) {
+            let e = self.int_expr(&vars);
+            brs.push(format!("| ={p} => {e}"));
+        }
+        Fun { src: format!("{name} = #'ext {{ {} }}", brs.join(" ")), name, kind: "ext", total: false }
+    }
+
+    pub fn program_shapes(&mut self) -> String {
+        let mut steps: Vec<String> = vec![
+            "'s = Circle[r: 'int] | Rect[w: 'int, h: 'int] | Dot".into(),
+            "'ps = ['s, 'int]".into(),
+            "'b = [id: 'int]".into(),
+            "'ext = E[...'b, s: 's]".into(),
+        ];
+        let nf = 1 + self.r.usize(3);
+        let mut funs = vec![];
+        for _ in 0..nf {
+            let f = match self.r.below(5) {
+                0 | 1 => self.fun_shape(),
+                2 | 3 => self.fun_shape_field(),
+                _ => self.fun_ext(),
+            };
+            steps.push(f.src.clone());
+            funs.push(f);
+        }
+        let mut obs = vec![];
+        let no = 2 + self.r.usize(3);
+        for _ in 0..no {
+            let f = &funs[self.r.usize(funs.len())];
+            let (name, kind) = (f.name.clone(), f.kind);
+            let sh = self.shape_lit();
+            let k = self.k();
+            obs.push(match kind {
+                "shape" => format!("{sh} {name}"),
+                "shapefield" => format!("[{sh}, {k}] {name}"),
+                _ => format!("E[id: {k}, s: {sh}] {name}"),
+            });
+        }
+        steps.push(format!("[{}]", obs.join(", ")));
+        steps.join(", ")
+    }
+
     /// a whole program; `None` for the (rare) draw without any observation
     pub fn program(&mut self) -> String {
         let mut steps: Vec<String> = vec!["'list = Nil | Cons['int, ^]".into(), "'tree = Leaf['int] | Node[^, ^]".into()];
